@@ -615,6 +615,9 @@ func (o *origin) RoundTrip(req *http.Request) (*http.Response, error) {
 		return nil, err
 	}
 	ctx := req.Context()
+	if rp.IgnoreCtx {
+		ctx = context.WithoutCancel(ctx)
+	}
 	if err := ctx.Err(); err != nil {
 		call.CtxDoneNs = w.now()
 		call.CtxErr = err.Error()
@@ -904,7 +907,7 @@ func (w *World) liveKeys() ([]string, []int) {
 			if op.Err == "" {
 				live[op.Key] = len(op.Val)
 			}
-		case "delete":
+		case "delete", "ext-delete":
 			if op.Err == "" {
 				delete(live, op.Key)
 			}
@@ -930,6 +933,9 @@ func (w *World) newTransport() (rt http.RoundTripper, err error) {
 		}
 	}()
 	opts := []httpcache.Option{httpcache.WithUpstream(&origin{w: w})}
+	for _, v := range w.sc.SWRPre {
+		opts = append(opts, httpcache.WithSWRTimeout(time.Duration(v)))
+	}
 	if w.sc.SWRSet {
 		opts = append(opts, httpcache.WithSWRTimeout(time.Duration(w.sc.SWRNs)))
 	}
@@ -954,8 +960,26 @@ func (w *World) newTransport() (rt http.RoundTripper, err error) {
 
 // Run executes the scenario in a fresh synctest bubble and returns the observations.
 // It never fails the test itself; callers judge the observations.
+// Zones are the local time zones the test processes run under (varied per shard).
+var Zones = map[string]*time.Location{"utc": time.UTC, "east": time.FixedZone("east", 5*3600+1800), "west": time.FixedZone("west", -8*3600)}
+
+// ZoneName names the current local zone ("" if it is none of Zones).
+func ZoneName() string {
+	for n, z := range Zones {
+		if time.Local == z {
+			return n
+		}
+	}
+	return ""
+}
+
 func Run(t *testing.T, sc *Scenario) *Obs {
 	register()
+	if z, ok := Zones[sc.Zone]; ok && time.Local != z {
+		old := time.Local
+		time.Local = z
+		defer func() { time.Local = old }()
+	}
 	obs := &Obs{Sc: sc}
 	w := &World{id: "w" + strconv.FormatInt(nextID.Add(1), 10), sc: sc, obs: obs, faults: map[int]Fault{}, logbuf: &countWriter{}}
 	for _, f := range sc.Faults {
@@ -1139,6 +1163,10 @@ func (w *World) corrupt(c *Corrupt) {
 	k := ks[((c.KeySel%len(ks))+len(ks))%len(ks)]
 	if c.Kind == "delete" {
 		_ = w.inner.Delete(k)
+		// recorded for the monitors (not a store operation of the cache: N = -1)
+		w.mu.Lock()
+		w.obs.Ops = append(w.obs.Ops, &StoreOp{Seq: w.seq.Add(1), N: -1, Ex: -1, NowNs: w.now(), Op: "ext-delete", Key: k})
+		w.mu.Unlock()
 		return
 	}
 	val, err := w.inner.Get(k)
@@ -1175,7 +1203,11 @@ func (w *World) doReqMode(rt http.RoundTripper, step int, rq *Req, concurrent bo
 	case rq.CancelNs > 0:
 		time.AfterFunc(time.Duration(rq.CancelNs), cancel)
 	}
-	req, err := http.NewRequestWithContext(ctx, rq.Method, rq.URL, nil)
+	var reqBody io.Reader
+	if rq.BodyLen > 0 {
+		reqBody = bytes.NewReader(bytes.Repeat([]byte("b"), rq.BodyLen))
+	}
+	req, err := http.NewRequestWithContext(ctx, rq.Method, rq.URL, reqBody)
 	if err != nil {
 		ex.Err = "harness: bad request: " + err.Error()
 		return cancel
